@@ -141,6 +141,7 @@ func prefixOK(got, ref []string, n int) bool {
 type injectCase struct {
 	Src    string `json:"src"`
 	Family string `json:"family"`
+	Entry  string `json:"entry"` // public entry point the program is submitted through: run | eval | call | value-call
 	Picks  []int  `json:"picks"` // per-mille positions used when the run has more polls than can be enumerated
 }
 
@@ -158,10 +159,34 @@ func witnessInterruptInTry() (bool, string) {
 	return true, res.Describe()
 }
 
+// submit runs the program through the chosen public entry point. For call / value-call the program
+// becomes the body of a function that is defined first (with the interrupt function disarmed).
+func (r *rig) submit(entry, src string) harness.RunResult {
+	switch entry {
+	case "eval":
+		return harness.Guard(func() (otto.Value, error) { return r.vm.Eval(src) })
+	case "call", "value-call":
+		inject, fail := r.injectAt, r.hostFail
+		r.injectAt, r.hostFail = 0, 0
+		def := harness.Run(r.vm, "function __main() {\n"+src+"\n}")
+		r.injectAt, r.hostFail = inject, fail
+		if def.Err != nil || def.Panicked {
+			return def
+		}
+		r.polls, r.lenAt = 0, []int{0}
+		if entry == "call" {
+			return harness.Guard(func() (otto.Value, error) { return r.vm.Call("__main", nil) })
+		}
+		fn, _ := r.vm.Get("__main")
+		return harness.Guard(func() (otto.Value, error) { return fn.Call(otto.UndefinedValue()) })
+	}
+	return harness.Run(r.vm, src)
+}
+
 func checkInject(c injectCase) harness.Outcome {
-	out := harness.Outcome{Classes: []string{"family:" + c.Family}}
+	out := harness.Outcome{Classes: []string{"family:" + c.Family, "entry:" + c.Entry}}
 	ref := newRig()
-	refRes := harness.Run(ref.vm, c.Src)
+	refRes := ref.submit(c.Entry, c.Src)
 	nonTerminating := refRes.Budget
 	if refRes.Panicked && !refRes.Budget {
 		out.Fail = fmt.Sprintf("reference run (no injection) panicked: %v\n%s", refRes.Panic, c.Src)
@@ -206,7 +231,7 @@ func checkInject(c injectCase) harness.Outcome {
 	for _, k := range ks {
 		r := newRig()
 		r.injectAt = k
-		res := harness.Run(r.vm, c.Src)
+		res := r.submit(c.Entry, c.Src)
 		unwound := false
 		if res.Panicked {
 			if s, ok := res.Panic.(sentinel); ok && s.K == k {
@@ -218,7 +243,7 @@ func checkInject(c injectCase) harness.Outcome {
 				excluded++
 				continue
 			}
-			out.Fail = fmt.Sprintf("interrupt function panicked at polling step %d of %d but Run did not unwind with that panic: %s (ES: README 'Halting Problem'; property C18)\n%s", k, n, res.Describe(), c.Src)
+			out.Fail = fmt.Sprintf("interrupt function panicked at polling step %d of %d but the call (entry %s) did not unwind with exactly that panic value: %s (README 'Halting Problem'; property C18)\n%s", k, n, c.Entry, res.Describe(), c.Src)
 			return out
 		}
 		want := ref.lenAt[k]
@@ -295,7 +320,7 @@ var templates = []struct{ family, src string }{
 
 var injectFacet = harness.Register(&harness.Facet[injectCase]{
 	Name: "interrupt-at-every-step",
-	Rule: "rapid: a program (templates covering empty-bodied loops of every form, bounded loops, recursion, callbacks inside sort/forEach/map/reduce/filter/replace/JSON/getters/valueOf, with, labels, try/finally, eval; or a program from the semantic generator) is first run with a counting interrupt function that records the host-call trace length at every polling step; then for EVERY step k (all when ≤120 polls, else first/last 25 plus drawn positions) a fresh runtime runs it with an interrupt function that panics at step k. Oracle: Run panics with exactly that value, the trace equals the reference prefix recorded at k, scope depth and pending labels are 0, a global written before each host call still has its value, and a fixed battery (labels, try/finally, with, recursion, switch, sort) gives its normal result on the same runtime. Non-trivial = the program makes host calls and contains a function or comes from a template; distinct by (program, picks)",
+	Rule: "rapid: a program (templates covering empty-bodied loops of every form, bounded loops, recursion, callbacks inside sort/forEach/map/reduce/filter/replace/JSON/getters/valueOf, with, labels, try/finally, eval; or a program from the semantic generator) is submitted through one of the public entry points (Run, Eval, Otto.Call, Value.Call) and first run with a counting interrupt function that records the host-call trace length at every polling step; then for EVERY step k (all when ≤120 polls, else first/last 25 plus drawn positions) a fresh runtime runs it with an interrupt function that panics at step k. Oracle: Run panics with exactly that value, the trace equals the reference prefix recorded at k, scope depth and pending labels are 0, a global written before each host call still has its value, and a fixed battery (labels, try/finally, with, recursion, switch, sort) gives its normal result on the same runtime. Non-trivial = the program makes host calls and contains a function or comes from a template; distinct by (program, picks)",
 	Quick:    260,
 	Thorough: 2500,
 	Gen: func(t *rapid.T) injectCase {
@@ -308,6 +333,7 @@ var injectFacet = harness.Register(&harness.Facet[injectCase]{
 			c.Family = tpl.family
 			c.Src = strings.ReplaceAll(tpl.src, "%N", strconv.Itoa(rapid.IntRange(0, 7).Draw(t, "n")))
 		}
+		c.Entry = rapid.SampledFrom([]string{"run", "run", "run", "eval", "call", "value-call"}).Draw(t, "entry")
 		for i := 0; i < 30; i++ {
 			c.Picks = append(c.Picks, rapid.IntRange(0, 1000).Draw(t, "pick"))
 		}
